@@ -588,7 +588,7 @@ static int run_case(std::vector<std::string> args, unsigned long long padseed, c
     argv.push_back(a.data());
   argv.push_back(nullptr);
   int argc = (int)args.size();
-  do_install_signal_handlers = false;
+  do_install_signal_handlers = getenv("PROGVM_SIGHANDLER") != nullptr; // plain builds: SimGrid's handler prints where it crashed
   // Engine and tables are never destroyed: after a (legitimate) deadlock the kernel objects still have blocked acquisitions,
   // which their destructors refuse; the process exits right after the END line anyway.
   auto& e     = *new sg4::Engine(&argc, argv.data());
